@@ -1,26 +1,389 @@
-"""C12 — timed waits are exact (wait_for / wait_any_for on execs). Machinery shared with C03 (see checks/C03.py)."""
+"""C12 — timed waits are exact (wait_for / wait_for_or_cancel / wait_any_for).
+Two families: execs through the engine model shared with C03 (see checks/C03.py), and communications / disk I/Os through
+the model SGV.Kernel.TimedComm (a comm has no model action until both sides are posted; the deadline callback reads the
+action when the timer fires) with the interpreter harness/c12_comm.cpp."""
+import json
+import fw
 import C03
+from C03 import ticks
+
+# ------------------------------------------------------------------------------------------------- comm / io family
+# Programs for harness/c12_comm.cpp and the Coq model SGV.Kernel.TimedComm.run_tc (same integer encoding).
+K_SLEEP, K_PUT, K_GET, K_WAIT, K_PUTT, K_GETT, K_IO, K_WAITC, K_PUTW, K_GETW = 1, 2, 3, 4, 5, 6, 7, 8, 9, 10
+POSTS_SND = {K_PUT, K_PUTT, K_PUTW}
+POSTS_RCV = {K_GET, K_GETT, K_GETW}
+WAITS = {K_WAIT: 2, K_WAITC: 2, K_PUTT: 3, K_GETT: 2, K_PUTW: 3, K_GETW: 2}      # op code -> index of the timeout
+CANCELLING = {K_WAITC, K_PUTT, K_GETT}
+INF = float("inf")
+
+
+def encode_tc(case):
+    out = [case["k"], case["p"], len(case["progs"])]
+    for pr in case["progs"]:
+        out.append(len(pr))
+        for o in pr:
+            out += list(o)
+    return out
+
+
+def gen_pair(rng):
+    """One comm between actor 1 (sender) and actor 2 (receiver): the waiter posts at a, the peer at b, the payload lasts d,
+    the deadline is placed before / at / after the natural completion tc = max(a, b) + d."""
+    k, p = rng.choice([(32, 4), (32, 4), (30, 1), (34, 16)])
+    U = 1 << (k - 2)
+    d = U * rng.randint(1, 6)
+    a, b = U * rng.randint(0, 4), U * rng.randint(0, 4)
+    if rng.random() < 0.6:
+        b = a + U * rng.randint(1, 4)                  # the waiter is there first: its comm has no action yet
+    e = rng.choice([0, 0, 0, U, 2 * U])                # pause between posting and waiting
+    tc = max(a, b) + d
+    place = rng.choice(["before", "at", "at", "at", "after", "tick-before", "tick-after", "prec-before", "prec-after", "never"])
+    td = {"before": tc + U * rng.randint(1, 3), "at": tc, "after": max(a + e, tc - U * rng.randint(1, 3)),
+          "tick-before": tc + 1, "tick-after": max(a + e, tc - 1), "prec-before": tc + p, "prec-after": max(a + e, tc - p),
+          "never": tc + U}[place]
+    t = max(0, td - (a + e))
+    waiter_sends = rng.random() < 0.5
+    style = rng.choice(["wait", "wait", "cancel", "short", "one"]) if e == 0 else rng.choice(["wait", "wait", "cancel"])
+    w, peer = [], []
+    if a:
+        w.append((K_SLEEP, a))
+    if style in ("wait", "cancel"):
+        w.append((K_PUT, 1, d) if waiter_sends else (K_GET, 1))
+        if e:
+            w.append((K_SLEEP, e))
+        w.append((K_WAIT if style == "wait" else K_WAITC, 1, t))
+        if style == "wait":
+            w.append((K_WAIT, 1, rng.choice([-1, -1, U, 8 * U])))       # after a timeout: observe the natural completion
+    elif style == "short":
+        w.append((K_PUTT, 1, d, t) if waiter_sends else (K_GETT, 1, t))
+    else:
+        w.append((K_PUTW, 1, d, t) if waiter_sends else (K_GETW, 1, t))
+    w.append((K_SLEEP, 40 * U))
+    if b:
+        peer.append((K_SLEEP, b))
+    if place == "never":
+        peer.append((K_SLEEP, U))
+    else:
+        peer.append((K_GET, 1) if waiter_sends else (K_PUT, 1, d))
+        r = rng.random()
+        if r < 0.5:
+            peer.append((K_WAIT, 1, -1))
+        elif r < 0.8:
+            peer.append((K_WAIT, 1, rng.choice([d, d, d + U, max(0, d - U), d + 1, max(0, d - 1)])))
+            peer.append((K_WAIT, 1, -1))
+        else:
+            peer.append((K_WAITC, 1, rng.choice([d, d + U, max(0, d - U)])))
+    peer.append((K_SLEEP, 43 * U))
+    progs = [w, peer] if waiter_sends else [peer, w]
+    if rng.random() < 0.3:                              # a bystander producing other dates (sleeps and a disk I/O)
+        x = [(K_SLEEP, U * rng.randint(0, 3) + rng.choice([0, 1, p])), (K_IO, 7, U * rng.randint(1, 5)),
+             (K_WAIT, 7, rng.choice([-1, U, 2 * U])), (K_WAIT, 7, -1), (K_SLEEP, U * rng.randint(1, 4))]
+        progs.append(x)
+    return {"fam": "comm", "k": k, "p": p, "progs": progs}
+
+
+def gen_io(rng):
+    k, p = rng.choice([(32, 4), (30, 1), (34, 16)])
+    U = 1 << (k - 2)
+    progs = []
+    for a in range(rng.randint(1, 2)):
+        pr, c = [], 10 * (a + 1)
+        for _ in range(rng.randint(1, 3)):
+            c += 1
+            d = U * rng.randint(1, 6) + rng.choice([0, 0, 0, 1])
+            e = rng.choice([0, 0, U])
+            pr.append((K_IO, c, d))
+            if e:
+                pr.append((K_SLEEP, e))
+            t = rng.choice([d - e, d - e, d - e + U, max(0, d - e - U), d - e + 1, max(0, d - e - 1), d - e + p, max(0, d - e - p), 0, -1])
+            pr.append((rng.choice([K_WAIT, K_WAIT, K_WAITC]), c, t))
+            if pr[-1][0] == K_WAIT:
+                pr.append((K_WAIT, c, rng.choice([-1, U])))
+        pr.append((K_SLEEP, (8 + a) * U))
+        progs.append(pr)
+    return {"fam": "comm", "k": k, "p": p, "progs": progs}
+
+
+def gen_mix(rng):
+    """2-3 actors, several comm ids (each with one sender and one receiver) and I/Os, random order and timeouts on the grid."""
+    k, p = rng.choice([(32, 4), (32, 4), (30, 1), (34, 16)])
+    U = 1 << (k - 2)
+    n = rng.randint(2, 3)
+    progs = [[] for _ in range(n)]
+    open_ = [[] for _ in range(n)]
+    for c in range(1, rng.randint(2, 4)):
+        s, r = rng.sample(range(n), 2)
+        d = U * rng.randint(1, 5)
+        for who, o in ((s, (K_PUT, c, d)), (r, (K_GET, c))):
+            if rng.random() < 0.6:
+                progs[who].append((K_SLEEP, U * rng.randint(0, 3)))
+            progs[who].append(o)
+            open_[who].append((c, d))
+            if rng.random() < 0.7:
+                cc, dd = rng.choice(open_[who])
+                t = rng.choice([-1, 0, dd, dd + U, dd + 2 * U, max(0, dd - U), dd + 1, 2 * dd])
+                progs[who].append((rng.choice([K_WAIT, K_WAIT, K_WAITC]), cc, t))
+    for a in range(n):
+        if rng.random() < 0.3:
+            progs[a].insert(rng.randint(0, len(progs[a])), (K_IO, 20 + a, U * rng.randint(1, 4)))
+            progs[a].append((K_WAIT, 20 + a, rng.choice([-1, U, 3 * U])))
+        for cc, dd in open_[a]:
+            if rng.random() < 0.8:
+                progs[a].append((K_WAIT, cc, rng.choice([-1, -1, 4 * U])))
+        if rng.random() < 0.85:
+            progs[a].append((K_SLEEP, (60 + 3 * a) * U))
+    return {"fam": "comm", "k": k, "p": p, "progs": progs}
+
+
+S32 = 1 << 32
+CORPUS_TC = [
+    # sender posts and waits first, the receiver arrives 1 s later, completion exactly AT the deadline: completed, not timed out
+    {"fam": "comm", "k": 32, "p": 4, "progs": [[(K_PUT, 1, 2 * S32), (K_WAIT, 1, 3 * S32)], [(K_SLEEP, S32), (K_GET, 1), (K_WAIT, 1, -1)]]},
+    # receiver first, wait_for_or_cancel / Mailbox::get(t) with the completion at the deadline: neither timeout nor cancel
+    {"fam": "comm", "k": 32, "p": 4, "progs": [[(K_SLEEP, S32), (K_PUT, 1, 2 * S32), (K_WAIT, 1, -1)], [(K_GET, 1), (K_WAITC, 1, 3 * S32)]]},
+    {"fam": "comm", "k": 32, "p": 4, "progs": [[(K_SLEEP, S32), (K_PUTT, 1, 2 * S32, 2 * S32)], [(K_GETT, 1, 3 * S32), (K_SLEEP, S32)]]},
+    # deadline one tick / one second before the completion: timeout at the deadline; _or_cancel makes the peer fail at that date
+    {"fam": "comm", "k": 32, "p": 4, "progs": [[(K_PUT, 1, 2 * S32), (K_WAIT, 1, 3 * S32 - 4), (K_WAIT, 1, -1)], [(K_SLEEP, S32), (K_GET, 1), (K_WAIT, 1, -1)]]},
+    {"fam": "comm", "k": 32, "p": 4, "progs": [[(K_PUT, 1, 2 * S32), (K_WAITC, 1, 2 * S32), (K_SLEEP, 4 * S32)], [(K_SLEEP, S32), (K_GET, 1), (K_WAIT, 1, -1)]]},
+    # both already there when the wait is issued; nobody ever comes (cancel of an unmatched comm, the late peer never matches)
+    {"fam": "comm", "k": 32, "p": 4, "progs": [[(K_PUT, 1, 2 * S32), (K_WAIT, 1, 2 * S32)], [(K_GET, 1), (K_WAIT, 1, 2 * S32 + 1)]]},
+    {"fam": "comm", "k": 32, "p": 4, "progs": [[(K_PUT, 1, 2 * S32), (K_WAITC, 1, S32 // 2), (K_SLEEP, 4 * S32)], [(K_SLEEP, S32), (K_GET, 1), (K_WAIT, 1, 3 * S32), (K_SLEEP, S32)]]},
+    # disk I/O: deadline at / before / after the completion
+    {"fam": "comm", "k": 32, "p": 4, "progs": [[(K_IO, 2, 2 * S32), (K_WAIT, 2, 2 * S32), (K_IO, 3, 2 * S32), (K_WAITC, 3, S32), (K_IO, 4, S32), (K_WAIT, 4, 2 * S32)]]},
+    # put_init()->wait_for(t): send and wait in one simcall (fixed defect: the timeout callback asserted on the observer type)
+    {"fam": "comm", "k": 32, "p": 4, "progs": [[(K_PUTW, 1, 2 * S32, S32), (K_SLEEP, 6 * S32)], [(K_SLEEP, 2 * S32), (K_GETT, 1, 3 * S32)]]},
+    {"fam": "comm", "k": 32, "p": 4, "progs": [[(K_SLEEP, S32), (K_PUT, 1, 2 * S32), (K_WAIT, 1, -1)], [(K_GETW, 1, 3 * S32), (K_SLEEP, S32)], [(K_GETW, 2, S32)]]},
+]
+
+
+def parse_tc_impl(line, k):
+    obs = {"rets": {}, "end": None, "crash": None}
+    for ent in line.split("|"):
+        t = ent.split()
+        if "CRASH" in t:
+            obs["crash"] = " ".join(t[t.index("CRASH"):])
+            t = t[:t.index("CRASH")]
+        if not t:
+            continue
+        if t[0] == "R":
+            obs["rets"].setdefault(int(t[1]), []).append((int(t[2]), ticks(t[3], k), ticks(t[4], k), int(t[5])))
+        elif t[0] == "E":
+            obs["end"] = ticks(t[1], k)
+    return obs
+
+
+def parse_tc_model(m):
+    flags = {"ended": m[0], "amb": m[1], "stuck": m[2]}
+    obs = {"rets": {}, "end": m[3], "crash": None}
+    for i in range(4, len(m), 5):
+        obs["rets"].setdefault(m[i], []).append((m[i + 1], m[i + 2], m[i + 3], m[i + 4]))
+    return flags, obs
+
+
+def oracle_tc(case, obs, dist=None):
+    """The property text evaluated on an implementation log: every natural completion date is computed from the dates at
+    which the two sides were posted (observed) and the payload duration (platform)."""
+    bad = []
+    p, progs = case["p"], case["progs"]
+    if obs["crash"]:
+        return [("crash", "the simulation died: %s" % obs["crash"])]
+    R = obs["rets"]
+    ended = {}                                        # actor -> date at which its function returned
+    for pid in range(1, len(progs) + 1):
+        rs = R.get(pid, [])
+        for j, e in enumerate(rs):
+            if e[0] != j or j >= len(progs[pid - 1]):
+                return [("op-sequence", "actor %d returns from operation %d as its %d-th return" % (pid, e[0], j))]
+        if len(rs) == len(progs[pid - 1]):
+            ended[pid] = rs[-1][2] if rs else 0
+    acts = {}                                         # id -> dict(io, d, posts {role: (pid, date)}, waits [...], cancels [(date, pid)])
+    for pid in range(1, len(progs) + 1):
+        rs = R.get(pid, [])
+        for j, o in enumerate(progs[pid - 1]):
+            if o[0] == K_SLEEP:
+                continue
+            ret = rs[j] if j < len(rs) else None
+            started = j < len(rs) or j == len(rs)     # the op was at least called (the previous one returned)
+            if ret is not None and ret[3] == -9:
+                continue
+            c = o[1]
+            A = acts.setdefault(c, {"io": False, "d": None, "posts": {}, "waits": [], "cancels": []})
+            t_call = ret[1] if ret else (rs[j - 1][2] if j and j - 1 < len(rs) else 0 if j == 0 else None)
+            if not started or t_call is None:
+                continue
+            if o[0] == K_IO:
+                A["io"], A["d"] = True, o[2]
+                A["posts"]["io"] = (pid, t_call)
+            elif o[0] in POSTS_SND:
+                A["d"] = o[2]
+                A["posts"]["snd"] = (pid, t_call)
+            elif o[0] in POSTS_RCV:
+                A["posts"]["rcv"] = (pid, t_call)
+            if o[0] in WAITS:
+                t = o[WAITS[o[0]]]
+                A["waits"].append({"pid": pid, "op": j, "t0": t_call, "t": t, "ret": ret, "cancelling": o[0] in CANCELLING})
+                if ret and o[0] in CANCELLING and ret[3] in (1, 11):
+                    A["cancels"].append((ret[2], pid))
+    for c, A in acts.items():
+        for role, (pid, _) in A["posts"].items():
+            if pid in ended:
+                A["cancels"].append((ended[pid], pid))   # an actor that ends cancels what it still takes part in
+    for c, A in sorted(acts.items()):
+        if A["io"]:
+            start = A["posts"]["io"][1]
+        elif "snd" in A["posts"] and "rcv" in A["posts"]:
+            start = max(A["posts"]["snd"][1], A["posts"]["rcv"][1])
+        else:
+            start = INF
+        for w in A["waits"]:
+            others = [dt for dt, q in A["cancels"] if q != w["pid"]]
+            if start != INF and any(abs(dt - start) < p for dt in others):
+                continue                                               # a cancel and the match at one date: order not judged
+            never = start == INF or any(dt < start for dt in others)  # the peer withdrew before the match: never matched
+            tc = INF if never else start + A["d"]
+            kills = [dt for dt in others if start <= dt < tc] if tc != INF else []
+            fail = min(kills) if kills else INF
+            if fail != INF and abs(fail - tc) < p:
+                continue
+            first, want_res = (tc, 0) if tc <= fail else (fail, 3)
+            t0, t, ret = w["t0"], w["t"], w["ret"]
+            td = t0 + t if t >= 0 else INF
+            what = "actor %d op %d %s on %s %d called at %s: posted %s, payload %s, natural completion %s, peer cancel %s, deadline %s: " % (
+                w["pid"], w["op"], progs[w["pid"] - 1][w["op"]], "io" if A["io"] else "comm", c, t0,
+                {r: v[1] for r, v in A["posts"].items()}, A["d"], tc, fail, td)
+            near = first != INF and td != INF and first != td and abs(first - td) < p
+            if dist is not None:
+                dist["waits_judged"] += 1
+                if first == td and want_res == 0:
+                    dist["deadline_at_completion"] += 1
+                    if not A["io"] and t0 < start:
+                        dist["waiter_first_deadline_at_completion"] += 1
+            exp_done = first <= td if want_res == 0 else first < td      # a peer's cancel at the deadline comes after the timers of that date
+            if ret is None:
+                if (first != INF or td != INF) and obs["end"] is not None and min(first, td) + p <= obs["end"] and w["pid"] not in ended:
+                    bad.append(("wait-never-returned", what + "it never returned (simulation ended at %s)" % obs["end"]))
+                continue
+            _, r0, r1, res = ret
+            if res == 11:
+                bad.append(("or-cancel-not-canceled", what + "timed out at %s but the activity is not CANCELED afterwards" % r1))
+                continue
+            done_ok = (res == want_res or (want_res == 3 and res == 2)) and r1 <= max(t0, first) < r1 + p
+            tout_ok = res == 1 and r1 == td
+            if near:
+                ok = done_ok or tout_ok
+            elif exp_done:
+                ok = done_ok
+            else:
+                ok = tout_ok
+            if not ok:
+                if exp_done and res == 1:
+                    sig = "timeout-despite-completion"
+                elif not exp_done and res == 0:
+                    sig = "completed-after-deadline"
+                elif not exp_done and res == 1:
+                    sig = "timeout-inexact"
+                elif exp_done and res == want_res:
+                    sig = "completion-date-wrong"
+                else:
+                    sig = "wait-wrong-result"
+                bad.append((sig, what + "returned %d at %s, expected %s" % (res, r1, ("%d at %s" % (want_res, max(t0, first))) if exp_done else "a timeout (1) at %s" % td)))
+    return bad
+
+
+# ------------------------------------------------------------------------------------------------- driver
+def comm_family(ctx, replay_case=None):
+    drv = fw.build_harness("c12_comm")
+    if replay_case is not None:
+        cases = [replay_case]
+    else:
+        cases = [dict(c) for c in CORPUS_TC]
+        gens = [gen_pair, gen_pair, gen_pair, gen_io, gen_mix]
+        for i in range(ctx.n(400, 8000)):
+            cases.append(gens[i % len(gens)](ctx.rng))
+    for c in cases:
+        c["progs"] = [[tuple(o) for o in pr] for pr in c["progs"]]
+    enc = [encode_tc(c) for c in cases]
+    model = fw.run_model("c12", "run_tc", enc)
+    rc, impl, err = fw.run_lines(drv, [], [" ".join(map(str, e)) for e in enc], timeout=3000)
+    if rc != 0 or len(impl) != len(cases):
+        raise fw.BuildError("c12_comm ended with rc=%d after %d/%d cases: %s" % (rc, len(impl), len(cases), err[-300:]))
+    dist = {"cases": len(cases), "ambiguous_ties": 0, "model_out_of_fuel": 0, "compared_exactly": 0, "ops": {},
+            "waits_judged": 0, "deadline_at_completion": 0, "waiter_first_deadline_at_completion": 0}
+    for c, m, il in zip(cases, model, impl):
+        flags, mo = parse_tc_model(m)
+        io = parse_tc_impl(il, c["k"])
+        for pr in c["progs"]:
+            for o in pr:
+                dist["ops"][o[0]] = dist["ops"].get(o[0], 0) + 1
+        nontrivial = sum(len(v) for v in io["rets"].values()) > len(c["progs"]) and io["end"] not in (None, 0)
+        ctx.case(("comm", c["k"], c["p"], str(c["progs"])), nontrivial, {"case": c, "impl": il[:300]} if nontrivial else None)
+        verdict = oracle_tc(c, io, dist)
+        for sig, what in verdict:
+            ctx.fail(sig, what + " | case " + json.dumps(c), c)
+        if not flags["ended"] or flags["stuck"]:
+            dist["model_out_of_fuel"] += 1
+            continue
+        same = mo["rets"] == io["rets"] and mo["end"] == io["end"] and not io["crash"]
+        if flags["amb"]:
+            dist["ambiguous_ties"] += 1
+            if not same and len(ctx.notes) < 5:
+                ctx.notes.append("tie order differs (not an alarm) on %s" % json.dumps(c))
+            continue
+        dist["compared_exactly"] += 1
+        if not same and not verdict:
+            ctx.mismatch("correspondence SGV.Kernel.TimedComm.run_tc vs c12_comm",
+                         "model %s\nimpl  %s\nend model %s impl %s" % (mo["rets"], io["rets"], mo["end"], io["end"]), c)
+    ctx.cov.setdefault("input_distribution", {})["comm_io_family"] = dist
+    ctx.cov["rule"] = (ctx.cov.get("rule", "") + " || comm/io family: 2-3 actors, one mailbox per comm, put_async/get_async/Mailbox::put|get(timeout)/"
+                       "put_init|get_init()->wait_for (one simcall)/disk read|write_async, wait_for and wait_for_or_cancel; the waiter posts before, "
+                       "with or after its peer; deadline before / at / after (by a grid step, one tick, one precision) the natural completion "
+                       "max(post dates) + size/bandwidth; non-trivial = the clock advanced and some operation returned")
+    ctx.assumptions += ["comm/io family: every pair of hosts has its own FATPIPE link of 2^k B/s without latency, network model CM02 without "
+                        "cross-traffic, one private disk per I/O: durations are size/bandwidth exactly (dyadic), independent of other traffic",
+                        "comm/io family: one put and one get per mailbox, an activity is waited by the actors that posted it only, no wait "
+                        "after a completed / failed / cancelled wait on the same handle; no wait_any_for on comms (covered on execs)",
+                        "comm/io family: two actions ending or two timers answering at one date: the model flags the case, only the oracle judges it"]
+    ctx.cov["trusted_base"] = ctx.cov.get("trusted_base", []) + ["the oracle oracle_tc of checks/C12.py (python, evaluates the property text on the implementation log)"]
 
 
 def run(ctx):
+    rep = json.load(open(ctx.replay))["case"] if ctx.replay else None
+    if rep is not None and rep.get("fam") == "comm":
+        ctx.simgrid(["simgrid"])
+        ctx.prove()
+        comm_family(ctx, rep)
+        return
     C03.run_family(ctx, "C12", ["wait", "wait", "wait", "life"], 500, 12000,
-                   ["only exec activities are covered (comm, I/O and mess need the network/disk models); wait_for_or_cancel is not exercised"])
+                   ["exec family: only exec activities; wait_for_or_cancel on execs is not exercised (it is on comms and I/Os)"])
+    if rep is None:
+        comm_family(ctx)
 
 
 META = {
     "level": "proof",
-    "text": "Coq theorems about the engine model shared with C03 (for every state): when a wait_for deadline is reached the waiter gets a "
-            "timeout at exactly that date unless the activity's action finished in the same solve(), in which case it completes normally "
-            "(C12_wait_for_deadline: completion at the deadline counts as completed, timers run before ended actions); no timeout before the "
-            "deadline (C12_no_timeout_before_deadline); the clock never jumps over a deadline or a completion date "
-            "(C12_deadline_not_jumped_over); an exec is FINISHED exactly when its date is within the precision of the new clock "
-            "(C12_completion_date); wait_any_for answers -1 at its deadline (C12_wait_any_deadline). Whole-run behaviour (deadline before/at/"
-            "after completion, wait_any_for picks a completed activity) is tied to the rebuilt library by exact log comparison of generated "
-            "programs and judged on every implementation log by an oracle computing completion dates from the platform.",
-    "note": "Step-level theorems (all states) plus the run-level invariants of C03; the end-to-end statement 'Done at tc iff tc <= t0+t' is "
-            "checked by the oracle and the correspondence, not proved as one theorem. Only exec activities (comm/io/mess need the network/disk "
-            "models); wait_for_or_cancel not exercised. Completions closer than precision/timing to a deadline are accepted either way "
-            "(the engine merges dates closer than the precision).",
+    "text": "Coq theorems. (1) End to end for one timed wait on a comm / I/O (C12_wait_for_exact, C12_wait_for_exact_unmatched, "
+            "C12_wait_for_never_matched, C12_wait_untimed): for every increasing sequence of engine dates containing the deadline td = t0+t and "
+            "the completion date tc (neither is ever jumped over: C12_comm_dates_not_jumped_over, C12_comm_deadline_is_pending, "
+            "C12_comm_completion_is_pending), whatever happens at the other dates: tc <= td -> the wait returns Done at tc (a completion AT the "
+            "deadline counts as completed), td < tc -> TimeoutException at td, and with wait_for_or_cancel the activity is then cancelled (out of "
+            "its mailbox, or its action FAILED and out of the heap: C12_or_cancel_never_completes). The unmatched case covers a comm that has NO "
+            "model action when wait_for is called (peer posts later at ts, tc = ts + size/bw): the deadline callback reads the action when the "
+            "timer fires. (2) Step theorems on the engine models (all states): C12_comm_deadline_reads_current_action / C12_wait_for_deadline "
+            "(timeout at the deadline unless the action finished in this very solve), C12_*_no_timeout_before_deadline, "
+            "C12_comm_unmatched_put|get_has_no_action, C12_comm_put|get_match_creates_action, C12_comm_finish_answers_waiters, "
+            "C12_comm_completion_date / C12_completion_date, C12_deadline_not_jumped_over, C12_wait_any_deadline (execs). Both models are tied to "
+            "the rebuilt library by exact log comparison of generated programs (execs: checks/C03.py; comms and I/Os: sender-first / receiver-first, "
+            "put_async/get_async + wait_for, wait_for_or_cancel, Mailbox::put/get(timeout), one-simcall put_init()->wait_for, disk read/write) and "
+            "every implementation log is judged by an oracle that computes each natural completion date from the observed post dates and the "
+            "platform and places the deadline before / at / after it.",
+    "note": "The end-to-end theorems are about the single-wait episode [ep_visit] built from the same three local rules (pop_astate, timer_skips, "
+            "ended_result) and in the same order (solve, timers, ended actions, sub-rounds) as the executable engine [advance]; that the whole-program "
+            "engine follows the episode for each wait is established by construction and by the correspondence, not by a theorem. Dates closer than "
+            "precision/timing are merged by the engine: the theorems assume visited dates equal or >= precision apart from tc (hypothesis separated), "
+            "the oracle accepts either outcome there. wait_any_for is modelled on execs only; its timer has no right-on-time test, so an activity "
+            "completing exactly at the deadline is reported as a timeout, which the text allows ('completed before the deadline'). Mess activities "
+            "and comm suspension are not modelled. Defect fixed in /repo: put_init()/get_init()->wait_for(t) (Comm::send/recv in one simcall) aborted "
+            "on xbt_assert(observer != nullptr) when the timeout fired; now raises TimeoutException at the deadline (see KNOWN_FINDINGS).",
     "technique": C03.META["technique"],
     "claimed": True,
 }
